@@ -358,6 +358,34 @@ def _ws_texts(rng, per):
     return out
 
 
+LINE_BREAKS = ["\n", "\r\n", " \n", "\n\n", "\r", "\n ", "\x0b", "\x0c", "\x85", "\u2028"]
+
+
+def _multiline_texts(rng, per):
+    """(text, expectation): a valid first line, a line break of every kind, and a second line"""
+    out = []
+    for br in LINE_BREAKS:
+        for _ in range(per):
+            first = _rand_bits(rng, rng.randrange(1, 7))
+            if rng.random() < 0.4:
+                first = " ".join(first)
+            kind = rng.choice(["digit", "digit", "digits", "letter", "sign", "bits", "mixed"])
+            if kind == "digit":
+                second, exp = rng.choice("23456789"), "err"
+            elif kind == "digits":
+                second, exp = "".join(rng.choice("0123456789") for _ in range(rng.randrange(1, 4))) + rng.choice("23456789"), "err"
+            elif kind == "letter":
+                second, exp = rng.choice(["a", "ab", "x1", "1e3", "O", "l"]), "err"
+            elif kind == "sign":
+                second, exp = rng.choice(["+1", "-0", "-", "+", "-1", "+0 +1"]), "any"
+            elif kind == "bits":
+                second, exp = _rand_bits(rng, rng.randrange(1, 5)), "any"
+            else:
+                second, exp = rng.choice(["0 2", "1,5", "01 7 1", "9;1"]), "err"
+            out.append((first + br + second, exp))
+    return out
+
+
 def _bool_class_digits(text):
     """for a string made only of 0, 1, comma and white space (one row): its digit characters, the only possible elements"""
     if text and all(ch in "01," or ch.isspace() or ch in "\x1c\x1d\x1e\x1f\x85" for ch in text):
@@ -487,6 +515,17 @@ def gen_cases(rng, tier):
             steps.append({"op": "get", "index": {"t": "slice", "a": 1, "b": None, "c": None}, "keep": True})
             steps.append({"op": "inv", "keep": True})
             cases.append({"kind": "prog", "init": init, "init_dtype": dt, "steps": steps})
+    for t, exp in _multiline_texts(rng, 3 if quick else 30):
+        cases.append({"kind": "mk", "data": {"form": "text", "text": t}, "expect": exp})
+    for t, exp in _multiline_texts(rng, 2 if quick else 20):
+        for op in ("add", "radd"):
+            cases.append({"kind": "prog", "init": _rand_bits(rng, rng.randrange(0, 6)),
+                          "steps": [{"op": op, "operand": {"form": "text", "text": t}, "obits": None, "expect": exp, "keep": False}]})
+    for t in ["0101\n2", "0101\r\n2", "0101 \n2", "0101\n\n2", "01\n7", "0\n9\n1"]:
+        cases.append({"kind": "mk", "data": {"form": "text", "text": t}, "expect": "err"})
+        for op in ("add", "radd"):
+            cases.append({"kind": "prog", "init": "01", "steps": [{"op": op, "operand": {"form": "text", "text": t}, "obits": None,
+                                                                   "expect": "err", "keep": False}]})
     for t in _ws_texts(rng, 2 if quick else 20):
         cases.append({"kind": "mk", "data": {"form": "text", "text": t}, "expect": "any"})
     for t in _ws_texts(rng, 1 if quick else 10):
@@ -862,6 +901,23 @@ def _run_prog(case):
         except Exception as e:  # noqa
             rec.update(_err(e))
             r = None
+        if op == "add":
+            # the augmented form: `c = a; c += b` must behave as `c = a + b` (a new object; `a` as it was)
+            try:
+                with time_limit(20):
+                    with warnings.catch_warnings():
+                        warnings.simplefilter("ignore")
+                        c = cur
+                        c += _obj(st["operand"])
+                rec["iadd"] = {"status": "ok", "same_object": c is cur,
+                               "shares": bool(isinstance(c, binary_sequence) and np.shares_memory(c.data, cur.data)),
+                               "bits": "".join(str(int(x)) for x in np.asarray(c.data).ravel()) if isinstance(c, binary_sequence) else repr(c)[:60],
+                               "dtype": str(c.data.dtype) if isinstance(c, binary_sequence) else type(c).__name__}
+            except Timeout:
+                raise
+            except Exception as e:  # noqa
+                rec["iadd"] = _err(e)
+            rec["iadd"]["a_after"] = "".join(str(int(x)) for x in cur.data)
         rec["self_unchanged"] = cur.data.tobytes() == snap
         if osnap is not None:
             now = (operand.data.tobytes() if isinstance(operand, binary_sequence) else
@@ -1241,6 +1297,16 @@ def oracle(case, res):
                     v.append((f"C15:not-new:{op}", f"{tag}: the result is not a new object / shares memory with an operand"))
                 if rec.get("law_count") is False:
                     v.append(("C15:law-count", f"{tag}: ones()+zeros() != len()"))
+            ia = rec.get("iadd")
+            if ia is not None:
+                if ia["a_after"] != prev:
+                    v.append(("C15:iadd-mutates", f"{tag}: after `c = a; c += b` the sequence a holds {ia['a_after'][:60]!r}: "
+                                                  f"concatenation must leave its operands unchanged (len {len(prev)} -> {len(ia['a_after'])})"))
+                if ia["status"] == "ok" and (ia.get("same_object") or ia.get("shares")):
+                    v.append(("C15:iadd-not-new", f"{tag}: after `c = a; c += b`, c is a / shares its data: concatenation must return a new sequence"))
+                if ia["status"] != rec["status"] or (ia["status"] == "ok" and (ia["bits"] != rec["bits"] or ia["dtype"] != "uint8")):
+                    v.append(("C15:iadd-value", f"{tag}: `c = a; c += b` gave {ia.get('bits', ia.get('exc'))!r:.60} ({ia.get('dtype')}) but a + b "
+                                                f"{rec.get('bits', rec.get('exc'))!r:.60}"))
             if op in ("add", "radd"):
                 exp, b = st["expect"], st.get("obits")
                 desc = f"{tag}, b={st['operand'].get('form')} {str(st['operand'].get('text', st['operand'].get('vals')))[:40]!r}"
